@@ -11,6 +11,8 @@ var checks = map[string]func(*Report){
 	"C03": runC03,
 	"C04": runC04,
 	"C05": runC05,
+	"C09": runC09,
+	"C10": runC10,
 	"C11": runC11,
 	"C14": runC14,
 	"C15": runC15,
